@@ -1,4 +1,5 @@
-package main
+// Package vh holds the helpers shared by the per-property conformance drivers.
+package vh
 
 import (
 	"bufio"
@@ -48,36 +49,36 @@ func RunesFromInts(a []int) string {
 
 type M = map[string]interface{}
 
-type ndWriter struct {
+type NdWriter struct {
 	f *os.File
 	w *bufio.Writer
-	n int
+	N int
 }
 
-func newNdWriter(path string) (*ndWriter, error) {
+func NewNdWriter(path string) (*NdWriter, error) {
 	f, err := os.Create(path)
 	if err != nil {
 		return nil, err
 	}
-	return &ndWriter{f: f, w: bufio.NewWriterSize(f, 1<<20)}, nil
+	return &NdWriter{f: f, w: bufio.NewWriterSize(f, 1<<20)}, nil
 }
 
-func (s *ndWriter) Write(v interface{}) {
+func (s *NdWriter) Write(v interface{}) {
 	b, err := json.Marshal(v)
 	if err != nil {
 		panic(err)
 	}
 	s.w.Write(b)
 	s.w.WriteByte('\n')
-	s.n++
+	s.N++
 }
 
-func (s *ndWriter) Close() {
+func (s *NdWriter) Close() {
 	s.w.Flush()
 	s.f.Close()
 }
 
-func readNd(path string, each func(raw json.RawMessage) error) error {
+func ReadNd(path string, each func(raw json.RawMessage) error) error {
 	f, err := os.Open(path)
 	if err != nil {
 		return err
@@ -99,7 +100,7 @@ func readNd(path string, each func(raw json.RawMessage) error) error {
 	return sc.Err()
 }
 
-func seed() int64 {
+func Seed() int64 {
 	if v := os.Getenv("VERIF_SEED"); v != "" {
 		if n, err := strconv.ParseInt(v, 10, 64); err == nil {
 			return n
@@ -108,16 +109,16 @@ func seed() int64 {
 	return 1
 }
 
-func newRand(salt int64) *rand.Rand { return rand.New(rand.NewSource(seed()*1000003 + salt)) }
+func NewRand(salt int64) *rand.Rand { return rand.New(rand.NewSource(Seed()*1000003 + salt)) }
 
-func writeJSON(path string, v interface{}) {
+func WriteJSON(path string, v interface{}) {
 	b, _ := json.MarshalIndent(v, "", " ")
 	if err := os.WriteFile(path, b, 0o644); err != nil {
 		fmt.Fprintln(os.Stderr, "write", path, err)
 	}
 }
 
-func eqInts(a, b []int) bool {
+func EqInts(a, b []int) bool {
 	if len(a) != len(b) {
 		return false
 	}
@@ -127,4 +128,27 @@ func eqInts(a, b []int) bool {
 		}
 	}
 	return true
+}
+
+// Commands is the sub-command table of one driver binary.
+type Commands map[string]func(args []string) error
+
+// Main dispatches os.Args[1] to a command.
+func Main(cmds Commands) {
+	if len(os.Args) < 2 {
+		fmt.Fprintln(os.Stderr, "usage: <driver> <command> [flags]")
+		for k := range cmds {
+			fmt.Fprintln(os.Stderr, "  ", k)
+		}
+		os.Exit(64)
+	}
+	f, ok := cmds[os.Args[1]]
+	if !ok {
+		fmt.Fprintln(os.Stderr, "unknown command", os.Args[1])
+		os.Exit(64)
+	}
+	if err := f(os.Args[2:]); err != nil {
+		fmt.Fprintln(os.Stderr, "driver:", err)
+		os.Exit(3)
+	}
 }
